@@ -1300,3 +1300,41 @@ Proof.
   split; [repeat split; discriminate|].
   split; vm_compute; reflexivity.
 Qed.
+
+(* ------------------------------------------------------------------------
+   The predicates under an OPERAND-DETERMINED == that is no equivalence
+   (Proofs/PureEqSet.v, [Related E ck cq R]): still pure functions of the two
+   operands -- which operand is iterated and which is probed, and on which side
+   of == the probed set's element stands, is part of the statement.
+   ------------------------------------------------------------------------ *)
+Require Import Proofs.PureEq Proofs.PureEqSet.
+
+Theorem C08_is_subset_any_relation :
+  forall (K Q T : Type) (E : env K unit Q T) (ck : K -> N) (cq : Q -> N) (R : N -> N -> bool)
+         (HR : Related E ck cq R) (a b : map K unit) (w : world K unit T),
+    WF a -> WF b ->
+    wp (is_subset E a b)
+       (fun (r : bool) (w' : world K unit T) =>
+          stable w w' /\
+          r = (len a <=? len b) &&
+              forallb (fun p => match find_rel ck R (ck (fst p)) (Spec.elems b) with Some _ => true | None => false end)
+                      (Spec.elems a))
+       (fun _ : world K unit T => False) w.
+Proof. exact (fun K Q T E ck cq R HR => is_subset_rel E ck cq R HR). Qed.
+Print Assumptions C08_is_subset_any_relation.
+
+Theorem C08_is_disjoint_any_relation :
+  forall (K Q T : Type) (E : env K unit Q T) (ck : K -> N) (cq : Q -> N) (R : N -> N -> bool)
+         (HR : Related E ck cq R) (a b : map K unit) (w : world K unit T),
+    WF a -> WF b ->
+    wp (is_disjoint E a b)
+       (fun (r : bool) (w' : world K unit T) =>
+          stable w w' /\
+          r = if len a <=? len b
+              then forallb (fun p => match find_rel ck R (ck (fst p)) (Spec.elems b) with Some _ => false | None => true end)
+                           (Spec.elems a)
+              else forallb (fun p => match find_rel ck R (ck (fst p)) (Spec.elems a) with Some _ => false | None => true end)
+                           (Spec.elems b))
+       (fun _ : world K unit T => False) w.
+Proof. exact (fun K Q T E ck cq R HR => is_disjoint_rel E ck cq R HR). Qed.
+Print Assumptions C08_is_disjoint_any_relation.
